@@ -79,6 +79,13 @@ def echo(ids: List[int]) -> bool:
         if consumed > 1:
             reached()
             return False                          # more than one inbound message processed in a tick
+        with untraced():
+            still = list(getattr(node.assoc._recv_messages, "queue", []))
+            done_ = [not any(q is m for q in still) for m in msgs]
+        if any(done_[j] and not done_[i] for i in range(len(msgs)) for j in range(i + 1, len(msgs))):
+            reached()
+            if REPLAY: note(problem="a later inbound message was processed while an earlier one (a base request) was still waiting", processed=done_)
+            return False                          # "emitted before any later inbound message is processed": inbound order is kept
         got += new
         if node.assoc.transport is not None:
             node.flush()                          # transport thread runs between ticks
